@@ -321,9 +321,11 @@ class JSONGrammar(BaseGrammar):
             schema: The schema to update from.
             merge: Whether to merge or update the grammar.
         """
+        # The schema builder intersects the required names with the ones it already
+        # has, which are kept empty, so they are read from the schema itself.
         self.__schema_builder.add_schema(schema, not merge)
         self.__init_dependencies()
-        self._required_names |= self.__schema_builder.required
+        self._required_names |= set(schema.get("required", ()))
         self.__schema_builder.required.clear()
 
     def to_file(self, path: Path | str = "") -> None:
